@@ -61,8 +61,12 @@ def make_threading_ns(S):
     ns = types.SimpleNamespace()
 
     def Lock():
+        # the item lock is created in _ItemTaskManager.__init__(self, <item name>, ...): tag it with the first
+        # positional argument of the creating frame (whatever that parameter is called)
         f = sys._getframe(1)
         item = f.f_locals.get('item_name')
+        if item is None and f.f_code.co_argcount >= 2:
+            item = f.f_locals.get(f.f_code.co_varnames[1])
         return MLock(S, False, ('I', item))
 
     def RLock():
@@ -178,6 +182,12 @@ class Job:
         self.done = False
         owner = getattr(fn, '__self__', None)
         self.item = getattr(owner, '_item_name', None)
+        if self.item is None and owner is not None:
+            # whatever the attribute is called: the owner's item lock was tagged with the item name when it was created
+            for v in list(getattr(owner, '__dict__', {}).values()):
+                if isinstance(v, MLock) and not v.reentrant and v.tag[0] == 'I':
+                    self.item = v.tag[1]
+                    break
         self.owner = owner
 
 
